@@ -57,6 +57,7 @@ class Report:
         self.explanation = ""
         self.extra: Dict[str, Any] = {}
         self.digest = ""
+        self.undecided_list: List[Dict[str, Any]] = []
 
     # -- rule instances ----------------------------------------------------
     def rule(self, rid: str, desc: str, floor: int = 1) -> None:
@@ -76,12 +77,22 @@ class Report:
         self.violations.append(Violation(rid, where, func, construct, message, extra))
 
     def check(self, rid: str, ok: bool, where: str, func: str, construct: str,
-              what: str, message: str = "", **extra: Any) -> bool:
-        """Record one obligation; a failed one is a violation."""
+              what: str, message: str = "", decided: bool = True, **extra: Any) -> bool:
+        """Record one obligation; a failed one is a violation - unless the rule
+        says it could not recognise the code shape it reasons about
+        (``decided=False``): then the obligation is *undecided*, which makes
+        the run an ANALYSIS-ERROR (exit 2), never a VIOLATION."""
+        if not ok and not decided:
+            self.undecided(rid, where, func, message or what)
+            return False
         self.instance(rid, where, what, ok)
         if not ok:
             self.violation(rid, where, func, construct, message or what, **extra)
         return ok
+
+    def undecided(self, rid: str, where: str, func: str, message: str) -> None:
+        self.rules.setdefault(rid, {"desc": rid, "floor": 0, "instances": [], "ok": 0, "bad": 0})
+        self.undecided_list.append({"rule": rid, "where": where, "function": func, "message": message})
 
     # -- finish ------------------------------------------------------------
     def floors(self) -> List[str]:
@@ -146,9 +157,13 @@ def finish(rep: Report, write: bool = True) -> int:
             print("  %s: rule %s in %s: %s\n      construct: %s" %
                   (v.where, v.rule, v.func, v.message, v.construct))
             print("VIOLATION property=%s replay=%s" % (rep.prop, path))
-    if floor_errs and code == 0:
+    for u in rep.undecided_list:
+        print("  %s: rule %s in %s cannot decide: %s" % (u["where"], u["rule"], u["function"], u["message"]))
+    if (floor_errs or rep.undecided_list) and code == 0:
         for e in floor_errs:
             print("ANALYSIS-ERROR: " + e)
+        for u in rep.undecided_list:
+            print("ANALYSIS-ERROR: rule %s cannot decide at %s" % (u["rule"], u["where"]))
         code = 2
 
     samples: List[Any] = []
@@ -177,6 +192,7 @@ def finish(rep: Report, write: bool = True) -> int:
         "source_digest": rep.digest,
         "known_findings_matched": [k.get("what") for k in matched],
         "floor_errors": floor_errs,
+        "undecided": rep.undecided_list,
     }
     cov.update(rep.extra)
     ev = {
